@@ -24,7 +24,8 @@ META = dict(
     functions=['TaskPool.clock_expire_tasks', 'TaskProxy.clock_expire',
                'TaskEventsManager.process_message / _process_message_check',
                'TaskState.reset', 'TaskPool.spawn_on_output',
-               'TaskPool.remove_if_complete', 'TaskQueueManager.remove_task'],
+               'TaskPool.remove_if_complete', 'TaskQueueManager.remove_task', 'TaskPool.queue_or_trigger (manual '
+               'trigger with the queue slot free or taken)'],
     bounds=['now, expiry times in 0..3 (or no expiry)', 'status: all 8',
             'manual flag, queued bit symbolic per task; 2 tasks'],
     stubs=['cylc.flow.task_proxy.time -> symbolic clock', 'data_store_mgr',
@@ -105,11 +106,50 @@ def expire(now: int, s1: int, s2: int, m1: bool, m2: bool, h1: bool,
     return True
 
 
+def triggered(now: int, e2: int, h2: bool, s1: int, was_queued: bool,
+              s2: int) -> bool:
+    """
+    pre: 0 <= now <= 3 and 0 <= e2 <= 3 and 0 <= s1 < 8 and 0 <= s2 <= 2
+    post: _
+    """
+    # a manually triggered task (through the real queue_or_trigger, with the
+    # single queue slot free or taken by another task) must never expire.
+    with concrete():
+        pool = fx.pool(CFG, real_events=True)
+        tem = pool.task_events_mgr
+        spawned = []
+
+        def spawn(itask, output, *a, **k):
+            spawned.append((itask.identity, output))
+            pool.spawn_on_output(itask, output)
+        tem.spawn_func = spawn
+        t1, t2 = fx.itask(CFG, 'a', 1), fx.itask(CFG, 'a', 2)
+        for t in (t1, t2):
+            t.state.is_runahead = False
+            pool.add_to_pool(t)
+    _tp.time = lambda: now
+    t1.state.status = ST[fork_int(s1, 0, 7)]
+    # the triggered task: waiting, or a finished-incomplete task re-triggered
+    t2.state.status = ['waiting', 'failed', 'submit-failed'][
+        fork_int(s2, 0, 2)]
+    t2.expire_time = e2 if h2 else None
+    if was_queued and t2.state.status == 'waiting':
+        pool.queue_task(t2)
+    pool.queue_or_trigger(t2)
+    if t2.state.status != 'waiting':
+        return False
+    pool.clock_expire_tasks()
+    return (t2.state.status == 'waiting'
+            and not t2.state.outputs.is_message_complete('expired')
+            and (t2.identity, 'expired') not in spawned
+            and any(x is t2 for x in pool.get_tasks()))
+
+
 def OBLIGATIONS(tier):
     big = tier == 'thorough'
     t = 1200 if big else 150
     return [Ob(f'expire[s1={ST[s]}]', 'expire', timeout=t, slice={'s1': s})
-            for s in range(8)]
+            for s in range(8)] + [Ob('triggered', 'triggered', timeout=t)]
 
 
 def VALIDATE():
@@ -120,4 +160,7 @@ def VALIDATE():
         assert expire(0, s1, 0, True, False, True, False, 0, 0, False, True)
         n += 2
     SLICE.clear()
+    assert triggered(3, 0, True, 5, False, 0)
+    assert triggered(3, 0, True, 0, True, 1)
+    n += 2
     return n
